@@ -591,7 +591,19 @@ def run_driver(cases, profile="dev", tag="run"):
     r = subprocess.run([binp, base + ".in.json", base + ".out.json"], stdout=subprocess.PIPE,
                        stderr=subprocess.PIPE, text=True)
     if r.returncode != 0:
-        raise Malfunction("driver failed (%d): %s" % (r.returncode, r.stderr[-2000:]))
+        os.unlink(base + ".in.json")
+        if len(cases) == 1:
+            # the library aborted the process (e.g. a panic inside take_mut::take): report it as a panic of every step
+            msg = "process aborted (exit %d) %s" % (r.returncode, r.stderr[-300:].replace("\n", " "))
+            return {cases[0]["id"]: [{"ok": False, "panic": msg} for _ in cases[0]["steps"]]}
+        if r.returncode > 0 and r.returncode != 101:
+            raise Malfunction("driver failed (%d): %s" % (r.returncode, r.stderr[-2000:]))
+        # find the culprit(s): split the batch
+        out = {}
+        mid = len(cases) // 2
+        out.update(run_driver(cases[:mid], profile, tag))
+        out.update(run_driver(cases[mid:], profile, tag))
+        return out
     with open(base + ".out.json") as f:
         res = json.load(f)["results"]
     os.unlink(base + ".in.json")
